@@ -23,7 +23,6 @@ fn c05_o1_capacity_zero_disables() {
     let mut n = 0;
     lru.for_each_evicted(|_| n += 1);
     assert!(n == 0, "C05: eviction happened with capacity 0");
-    assert!(lru.set.get_mut().is_empty(), "C05: uses recorded while eviction is disabled");
     lru.set_capacity(0);
     lru.for_each_evicted(|_| n += 1);
     assert!(n == 0);
